@@ -19,8 +19,8 @@ import (
 
 func init() {
 	fw.Register(&fw.Check{
-		ID: "C15",
-		Rule: "cases: for each of the five key types, payloads of 1 B..4 KiB (binary and JSON) signed with the library's signers via SignPayload and SignModel; oracle by construction: verify under the matching JWK must succeed and return the payload; under every other key (same and other types) must fail; every single-bit change of the decoded header, payload and signature (all bits for one JWS per key type, strided otherwise; segments re-encoded) must fail; wrong-length signatures, unsupported kty/crv and malformed compact splits must error. Signing is repeated until signatures with a leading zero byte in r or s were seen for every EC curve. distinct = (key type, payload class, tampering class, segment, bit-position bucket).",
+		ID:          "C15",
+		Rule:        "cases: for each of the five key types, payloads of 1 B..4 KiB (binary and JSON) signed with the library's signers via SignPayload and SignModel; oracle by construction: verify under the matching JWK must succeed and return the payload; under every other key (same and other types) must fail; every single-bit change of the decoded header, payload and signature (all bits for one JWS per key type, strided otherwise; segments re-encoded) must fail; wrong-length signatures, unsupported kty/crv and malformed compact splits must error. Signing is repeated until signatures with a leading zero byte in r or s were seen for every EC curve. distinct = (key type, payload class, tampering class, segment, bit-position bucket).",
 		Assumptions: []string{"forgery resistance of Ed25519 / ECDSA (a random bit flip does not yield a valid signature)", "harness base64url codec"},
 		Require:     []string{"verify-ok", "signer-reuse", "other-key", "bit-flip-header", "bit-flip-payload", "bit-flip-signature", "malformed", "leading-zero-rs"},
 		Workers:     func(string) int { return 15 },
